@@ -169,10 +169,19 @@ var profiles = map[string]map[string]int{
 	"down": {"scan": 35, "tick": 6, "pod_arrive": 3, "pod_schedule": 3, "pod_finish": 14, "launch": 3, "register": 8, "cordon": 2, "ext_taint": 1, "ext_untaint": 3, "force": 1, "annotate": 2, "node_gone": 0, "asg_edit": 2, "restart": 1, "lag": 0, "shuffle": 6},
 	"reap": {"scan": 30, "tick": 20, "pod_arrive": 3, "pod_schedule": 5, "pod_finish": 10, "launch": 2, "register": 4, "cordon": 4, "ext_taint": 8, "ext_untaint": 1, "force": 5, "annotate": 5, "node_gone": 1, "asg_edit": 1, "restart": 3, "lag": 0, "shuffle": 3},
 	"up":   {"scan": 32, "tick": 8, "pod_arrive": 18, "pod_schedule": 6, "pod_finish": 5, "launch": 5, "register": 8, "cordon": 2, "ext_taint": 6, "ext_untaint": 0, "force": 4, "annotate": 1, "node_gone": 0, "asg_edit": 2, "restart": 1, "lag": 0, "shuffle": 4},
+	"cycle-drain": {"scan": 36, "tick": 20, "pod_arrive": 0, "pod_schedule": 2, "pod_finish": 44, "launch": 0, "register": 2, "cordon": 0, "ext_taint": 0, "ext_untaint": 0, "force": 1, "annotate": 1, "node_gone": 0, "asg_edit": 0, "restart": 0, "lag": 0, "shuffle": 2},
+	"cycle-burst": {"scan": 40, "tick": 12, "pod_arrive": 22, "pod_schedule": 8, "pod_finish": 0, "launch": 1, "register": 3, "cordon": 0, "ext_taint": 0, "ext_untaint": 0, "force": 0, "annotate": 0, "node_gone": 0, "asg_edit": 0, "restart": 0, "lag": 0, "shuffle": 2},
 	"lock": {"scan": 38, "tick": 16, "pod_arrive": 14, "pod_schedule": 4, "pod_finish": 4, "launch": 4, "register": 6, "cordon": 5, "ext_taint": 4, "ext_untaint": 0, "force": 3, "annotate": 0, "node_gone": 0, "asg_edit": 2, "restart": 2, "lag": 0, "shuffle": 1},
 }
 
-func drawKind(r *rand.Rand, profile string) string {
+func drawKind(r *rand.Rand, profile string, step int) string {
+	if profile == "cycle" { // load comes and goes: taint / untaint / re-taint cycles within one controller lifetime
+		if (step/7)%2 == 0 {
+			profile = "cycle-drain"
+		} else {
+			profile = "cycle-burst"
+		}
+	}
 	w, ok := profiles[profile]
 	if !ok {
 		w = profiles["mix"]
@@ -197,6 +206,17 @@ func drawKind(r *rand.Rand, profile string) string {
 func genCfg(r *rand.Rand, o genOpts) world.Cfg {
 	t := thresholdTriples[r.Intn(len(thresholdTriples))]
 	c := world.Cfg{Lower: t[0], Upper: t[1], Up: t[2]}
+	if o.profile == "cycle" {
+		c.Min = r.Intn(2)
+		c.Max = c.Min + 4 + r.Intn(4)
+		c.Slow = 1 + r.Intn(2)
+		c.Fast = c.Slow + r.Intn(3)
+		c.Soft = 1 + r.Intn(2)
+		c.Hard = c.Soft + 1 + r.Intn(3)
+		c.Cool = 1
+		c.Effect = []string{"", "NoExecute"}[r.Intn(2)]
+		return c
+	}
 	c.Min = r.Intn(3)
 	c.Max = c.Min + 1 + r.Intn(o.maxNodes)
 	c.Slow = r.Intn(3)
@@ -275,7 +295,7 @@ func genInit(r *rand.Rand, o genOpts) *world.State {
 }
 
 // genEvents draws a random history against a live world (so that events mostly apply).
-func genStep(r *rand.Rand, w *world.World, o genOpts, nextID map[string]int) Event {
+func genStep(r *rand.Rand, w *world.World, o genOpts, nextID map[string]int, step int) Event {
 	g := w.Gorder[r.Intn(len(w.Gorder))]
 	st := w.Project()
 	gs := st.Groups[g]
@@ -297,7 +317,7 @@ func genStep(r *rand.Rand, w *world.World, o genOpts, nextID map[string]int) Eve
 		}
 		return 4 + 2*r.Intn(4), 4 + 2*r.Intn(4)
 	}
-	switch drawKind(r, o.profile) {
+	switch drawKind(r, o.profile, step) {
 	case "scan":
 		e := Event{Ev: "scan"}
 		if r.Intn(100) < o.faultPct {
@@ -316,11 +336,10 @@ func genStep(r *rand.Rand, w *world.World, o genOpts, nextID map[string]int) Eve
 	case "pod_schedule":
 		return Event{Ev: "pod_schedule", G: g, N: pick()}
 	case "pod_finish":
-		n := pick()
-		if r.Intn(4) == 0 {
-			n = ""
+		if len(gs.Pods) > 0 { // finish an existing pod (wherever it is)
+			return Event{Ev: "pod_finish", G: g, N: gs.Pods[r.Intn(len(gs.Pods))].Node}
 		}
-		return Event{Ev: "pod_finish", G: g, N: n}
+		return Event{Ev: "pod_finish", G: g, N: pick()}
 	case "launch":
 		nextID[g]++
 		return Event{Ev: "launch", G: g, N: fmt.Sprintf("%s%d", g[:1], 100+nextID[g])}
@@ -464,7 +483,7 @@ func driveOne(src string, seed int64, o genOpts, tr, ev *out) int {
 	nextID := map[string]int{}
 	scans := 0
 	for i := 0; i < o.steps; i++ {
-		e := genStep(r, w, o, nextID)
+		e := genStep(r, w, o, nextID, i)
 		e.Src = src
 		if e.Ev == "scan" {
 			if !w.Alive {
